@@ -117,12 +117,17 @@ theorem c09_empty_payload_writes_nothing (f : Frame) (cc : Nat) (h : f.payload =
 
 /-- Video elementary stream: for every NAL unit (any type, any length ≥ 1) and every SPS/PPS,
     the PES payload (header built by prepareAvcHeader ++ the NAL) is an Annex-B byte stream —
-    every unit preceded by a start code — consisting of: an access unit delimiter in front of
-    slices, IDR slices and SEI; the stream's SPS and PPS (when known) in front of an IDR slice;
-    then the source NAL unit, unchanged.  Key flag = IDR; PID/stream id fixed; 90 kHz stamps. -/
+    every unit preceded by a start code — of a form the specification allows
+    (`expectedNalsAlts`, written from the statement: a coded slice MUST have the access unit
+    delimiter in front, an IDR slice also the stream's SPS and PPS; other units may or may not):
+    concretely (`modelNals`) the delimiter in front of slices, IDR slices and SEI; the stream's
+    SPS and PPS (when known) in front of an IDR slice; then the source NAL unit, unchanged.
+    Key flag = IDR; PID/stream id fixed; 90 kHz stamps. -/
 theorem c09_annexb (sps pps nal : List UInt8) (dtsNs ptsNs : Int) (f : Frame)
     (h : videoFrame genCfg sps pps dtsNs ptsNs nal = some f) (aot sr ch : Nat) :
-    matchAnnexB (expectedNals { sps, pps, aot, srIndex := sr, chanCfg := ch } nal) (f.header ++ f.payload) = true
+    (expectedNalsAlts { sps, pps, aot, srIndex := sr, chanCfg := ch } nal).any (matchAnnexB · (f.header ++ f.payload)) = true
+    ∧ modelNals { sps, pps, aot, srIndex := sr, chanCfg := ch } nal ∈ expectedNalsAlts { sps, pps, aot, srIndex := sr, chanCfg := ch } nal
+    ∧ matchAnnexB (modelNals { sps, pps, aot, srIndex := sr, chanCfg := ch } nal) (f.header ++ f.payload) = true
     ∧ f.payload = nal ∧ f.key = isKey nal ∧ f.pid = genCfg.videoPid ∧ f.streamId = genCfg.videoSid
     ∧ f.dts = toTicks dtsNs ∧ f.pts = toTicks ptsNs := by
   cases nal with
@@ -133,7 +138,9 @@ theorem c09_annexb (sps pps nal : List UInt8) (dtsNs ptsNs : Int) (f : Frame)
     | some hdr =>
       simp only [videoFrame, hh] at h
       injection h with h; subst h
-      refine ⟨avcHeader_annexb genCfg c09_source_facts.2.2.1 { sps, pps, aot, srIndex := sr, chanCfg := ch } _ _ hh,
+      refine ⟨avcHeader_alts genCfg c09_source_facts.2.2.1 { sps, pps, aot, srIndex := sr, chanCfg := ch } _ _ hh,
+        modelNals_mem_alts _ _,
+        avcHeader_annexb genCfg c09_source_facts.2.2.1 { sps, pps, aot, srIndex := sr, chanCfg := ch } _ _ hh,
         rfl, ?_, rfl, rfl, rfl, rfl⟩
       rw [Bool.eq_iff_iff]; simp [isKey, nalType, c09_source_facts.2.2.2.2.1]
       exact (decide_eq_true_iff).symm
@@ -155,8 +162,8 @@ theorem c09_video_total (sps pps nal : List UInt8) (d p : Int) (h : nal ≠ []) 
 theorem c09_paramset_no_startcode_witness :
     let old : Cfg := { genCfg with skipLo := 7, skipHi := 9 }
     avcHeader old [0x67, 0x42] [0x68, 0xce] [0x67, 0x42, 0x00] = some [] ∧
-    matchAnnexB (expectedNals { sps := [0x67, 0x42], pps := [0x68, 0xce], aot := 2, srIndex := 4, chanCfg := 2 }
-      [0x67, 0x42, 0x00]) ([] ++ [0x67, 0x42, 0x00]) = false ∧
+    (expectedNalsAlts { sps := [0x67, 0x42], pps := [0x68, 0xce], aot := 2, srIndex := 4, chanCfg := 2 }
+      [0x67, 0x42, 0x00]).any (matchAnnexB · ([] ++ [0x67, 0x42, 0x00])) = false ∧
     splitAnnexB ([] ++ [0x67, 0x42, 0x00]) = none := by
   decide
 
